@@ -61,6 +61,44 @@ def interleaved_histories(r, thorough):
     return cases
 
 
+def parked_join_histories(r, thorough):
+    """a JOIN suspended in its MEMBER_JOINED notification (the member is already inserted under the channel lock) while
+    the joined user's connection goes away: the requester's own connection (the request is then cancelled mid-way) or, for
+    an on-behalf JOIN, the target's.  Afterwards the user is a member of nothing in either view, and a later session under
+    the same name inherits nothing.  Outside the sequential model: judged by the audit and the tracker's monitors."""
+    cases = []
+    variants = [("self", "ok"), ("self", "err"), ("onbehalf", "ok"), ("onbehalf", "err"), ("self_existing_member_publishes", "ok"), ("onbehalf", "ok")]
+    for i in range(len(variants) * (3 if thorough else 1)):
+        v, rel = variants[i % len(variants)]
+        cfg = sl.base_cfg(r, {"ops": r.choice([["fwd-event"], ["fwd-broadcast-payload", "fwd-event"]]), "proto": "P/1"})
+        cfg.update({"max_clients": 10, "max_subs": 10, "max_conns": 16, "max_channels": 100, "max_inflight": 10})
+        g = sl.Gen(r, cfg)
+        ks = sl._login(g, ["alice", "bob", "carol"])
+        ch = "!c1@localhost"
+        g.send(ks["alice"], sl.frame("JOIN", [("id", g.rid()), ("channel", ch)]), [])
+        if r.random() < 0.5:
+            g.send(ks["carol"], sl.frame("JOIN", [("id", g.rid()), ("channel", ch)]), [])
+        if v.startswith("self"):
+            g.ops.append({"t": "send", "k": ks["bob"], "bytes": sl.frame("JOIN", [("id", g.rid()), ("channel", ch)]).hex(), "script": [{"park": 1}]})
+        else:
+            g.ops.append({"t": "send", "k": ks["alice"], "bytes": sl.frame("JOIN", [("id", g.rid()), ("channel", ch), ("on_behalf", "bob@localhost")]).hex(), "script": [{"park": 1}]})
+        g.ops.append({"t": "hangup", "k": ks["bob"], "script": []})
+        del g.conns[ks["bob"]]
+        g.ops.append({"t": "release", "id": 1, "outcome": rel})
+        g.ops.append({"t": "advance", "ms": 50})
+        # a namesake signs in: it joined nothing
+        k = g.next_k
+        g.next_k += 1
+        g.ops.append({"t": "open", "k": k})
+        g.ops.append({"t": "send", "k": k, "bytes": sl.frame("CONNECT", [("version", 1), ("heartbeat_interval", 0)]).hex(), "script": []})
+        g.ops.append({"t": "send", "k": k, "bytes": sl.frame("IDENTIFY", [("username", "bob")]).hex(), "script": []})
+        g.conns[k] = {"phase": 2, "user": "bob"}
+        g.ops.append({"t": "send", "k": ks["alice"], "bytes": sl.frame("BROADCAST", [("id", g.rid()), ("channel", ch), ("length", 6), ("qos", 1)], b"secret").hex(), "script": []})
+        ops = g.ops + srvmon.audit_ops(g)
+        cases.append({"cfg": cfg, "ops": ops, "nomodel": True})
+    return cases
+
+
 def run(tier, replay=None):
-    return srvprops.run(PROP, THEOREMS, tier, replay, extra_gen=lambda r, th: interleaved_histories(r, th) + sl.kick_histories(r, th) + sl.stalled_drop_histories(r, th) + sl.cut_histories(r, th) + sl.oversize_histories(r, th) + sl.failed_event_histories(r, th),
-                        rule_note="plus interleaved histories: a LEAVE / disconnect clean-up suspended in its modulator notification while another connection joins, leaves or re-identifies; judged by the CHANNELS-vs-MEMBERS audit; plus members that stop reading and vanish while the server is blocked writing to them (connection ends through the write-error path); plus a member's request stream cut at sampled (thorough: all) byte offsets followed by the drop of the connection; plus small message buffers with long names, where unsolicited frames that do not fit end the receiving connection (compared with Model/ServerX.step_x); plus directed failed-notification histories (the modulator's event forwarding fails exactly on a MEMBER_LEFT: member leaves, owner removes a member, last member leaves and the channel is re-created, disconnect clean-up); plus directed removal histories: an owner removes a member with LEAVE on_behalf, then drops / fills its own limit / the removed member re-joins up to its limit / a namesake reconnects and probes ownership; ends with the CHANNELS-vs-MEMBERS audit (members must be alive)")
+    return srvprops.run(PROP, THEOREMS, tier, replay, extra_gen=lambda r, th: interleaved_histories(r, th) + parked_join_histories(r, th) + sl.kick_histories(r, th) + sl.stalled_drop_histories(r, th) + sl.cut_histories(r, th) + sl.oversize_histories(r, th) + sl.failed_event_histories(r, th),
+                        rule_note="plus parked-JOIN histories (a JOIN suspended in its notification while the joined user's connection goes away: no ghost membership, a namesake inherits nothing); plus interleaved histories: a LEAVE / disconnect clean-up suspended in its modulator notification while another connection joins, leaves or re-identifies; judged by the CHANNELS-vs-MEMBERS audit; plus members that stop reading and vanish while the server is blocked writing to them (connection ends through the write-error path); plus a member's request stream cut at sampled (thorough: all) byte offsets followed by the drop of the connection; plus small message buffers with long names, where unsolicited frames that do not fit end the receiving connection (compared with Model/ServerX.step_x); plus directed failed-notification histories (the modulator's event forwarding fails exactly on a MEMBER_LEFT: member leaves, owner removes a member, last member leaves and the channel is re-created, disconnect clean-up); plus directed removal histories: an owner removes a member with LEAVE on_behalf, then drops / fills its own limit / the removed member re-joins up to its limit / a namesake reconnects and probes ownership; ends with the CHANNELS-vs-MEMBERS audit (members must be alive)")
